@@ -136,6 +136,8 @@ Inductive case :=
 | KSelArr (rows cols : Z) (wells : arr string) (out : option (list bool))
 | KHex (n : Z) (out : string)
 | KXf (c : xf_call) (out : res (arr (option string)))
+| KRandCtor (mode R C : Z) (draws : list (list string)) (out : res (list (string * string)))
+    (* WellRandomizer((R, C), seed, mode).lookup items in insertion order; draws = what rng.permutation returned *)
 | KSave (filename : string) (recs : list string) (content : option string) (readback : list string) (shown : string)
 | KCtor (spec : lwspec) (out : res ctor_obs)
 | KPlan (stock_ge_xmax mode_ok : bool) (R C : Z) (vmax : arr Q) (ideal : list (list Q)) (stock min_transfer : Q)
@@ -184,6 +186,10 @@ Definition check (c : case) : bool :=
       option_eqb (list_eqb Bool.eqb) (selection_array (nat_ rows) (nat_ cols) (flattenC wells)) out
   | KHex n out => String.eqb (to_hex (Z.to_N n)) out
   | KXf call out => res_match (arr_eqb (option_eqb String.eqb)) (xf_run call) out
+  | KRandCtor mode R C draws out =>
+      let m := if (mode =? 0)%Z then RFull else if (mode =? 1)%Z then RRow else RColumn in
+      res_match (list_eqb (fun a b => String.eqb (fst a) (fst b) && String.eqb (snd a) (snd b)))
+                (mk_rand_table m (nat_ R) (nat_ C) draws) out
   | KSave filename recs content readback shown =>
       match save filename None recs with
       | (Some txt, None) => option_eqb String.eqb (Some txt) content
